@@ -63,6 +63,7 @@ OPTION_SETS = {
     'dist-bonds': ['-ff', 'martini3001', '-bonds-from', 'distance'],
     'elastic-thr': ['-ff', 'martini3001', '-elastic', '-eu', '@EU'],   # @EU: exactly the length of the longest elastic bond of the base run
     'cys-thr': ['-ff', 'martini3001', '-cys', '@CYS'],                 # @CYS: exactly the distance of the closest pair of SG atoms
+    'go': ['-ff', 'martini3001', '-go', '-go-eps', '9.0'],             # Go model with the contact map vermouth computes itself
 }
 ROTATIONS = [((1, 2, 3), (1, 1, 1)), ((2, 1, 3), (-1, 1, 1)), ((3, 1, 2), (1, 1, 1)), ((1, 3, 2), (1, -1, 1)), ((2, 3, 1), (1, 1, 1)),
              ((1, 2, 3), (-1, -1, 1))]
@@ -341,6 +342,7 @@ def pair_specs(tier, seed):
             ('trpcage', 'dist-bonds', [], ['scrambleH', 'scrambleH+permute+motion']),
             ('trpcage', 'ss-explicit', [], ['permute+renameHs+motion']),
             ('betasheet', 'cys-thr', [], ['motion', 'permute+renameHs+motion']),
+            ('trpcage', 'go', ['hashseed'], ['permute+renameHs']),
         ]       # the elastic-thr family needs a probe run first (second wave): thorough tier only
     out = []
     t0 = ('dipro', 'trpcage', 'betasheet', 'helix')
@@ -365,6 +367,8 @@ def pair_specs(tier, seed):
         out.append(('lysozyme', opt, ['hashseed'] if opt == 'elastic-chain' else [], ['permute+motion']))
     out.append(('3i40', 'cys-thr', [], ['motion', 'permute+motion', 'motion']))
     out.append(('lysozyme', 'cys-thr', [], ['motion', 'permute+motion']))
+    for inp in ('trpcage', 'betasheet', '3i40', '1UBQ'):       # Go model with the self-computed contact map (no rigid motion:
+        out.append((inp, 'go', ['permute', 'hashseed'], ['permute', 'permute+renameHs']))      # contacts sit on many thresholds)
     for opt in ('elastic-chain', 'cys03', 'nt'):
         out.append(('6LFO_gap', opt, ['hashseed'] if opt == 'elastic-chain' else [], ['permute+motion']))
     return out
